@@ -21,7 +21,7 @@ for patch in "$@"; do
       [ -d replays/$id ] && { rm -rf /var/tmp/refactor-logs/$name-$id-replays; cp -r replays/$id /var/tmp/refactor-logs/$name-$id-replays; }
     fi
   done
-  git -C /repo checkout -- .
+  git -C /repo checkout -- . && git -C /repo clean -fdq -- src
   [ -z "$bad" ] && bad=" — none —"
   echo "| $name | $suite |$bad |" >> "$out"; echo "$name: suite $suite; not exit 0:$bad"
 done
